@@ -48,7 +48,17 @@ pub fn analyze_order(egraph: &EGraph, enode: &Expr) -> OrderKey {
         Order([keys, _]) | TopN([_, _, keys, _]) => x(keys).clone(),
         // plans that preserve order
         Proj([_, c]) | Filter([_, c]) | Window([_, c]) | Limit([_, _, c]) => x(c).clone(),
-        MergeJoin([_, _, _, _, _, r]) => x(r).clone(),
+        // a merge join emits its rows in key order; rows of the left input without a match carry
+        // NULLs in the right columns, so only a join that emits no such rows (inner, right outer)
+        // is ordered by the right input's order
+        MergeJoin([ty, _, _, _, _, r])
+            if egraph[*ty]
+                .nodes
+                .iter()
+                .any(|n| matches!(n, Inner | RightOuter)) =>
+        {
+            x(r).clone()
+        }
         SortAgg([_, _, c]) => x(c).clone(),
         // unordered for other plans
         _ => Box::new([]),
